@@ -71,11 +71,13 @@ def run(chk: core.Check):
     # a text may begin with characters that are not whitespace for the scanner but often treated as such elsewhere (U+FEFF,
     # U+200B, U+00A0): they belong to the first block like any other character
     docs += [rnd.choice(["\ufeff", "\ufeff\n", "\u200b", "\u00a0 ", "\ufeff\ufeff "]) + d for d in docs[: ngarb // 12]]
-    recs = splitpipe.t3(chk, bib, docs, how="default")
+    # ... a third each with a fresh default stack, with ONE stack object shared by all calls, with a copy-mode default stack
+    for j, how in enumerate(("default", "default_shared", "default_copy")):
+        recs = splitpipe.t3(chk, bib, docs[j::3], how=how)
+        for r in recs:
+            if r["diff"] and not report(chk, r):
+                unattributed += 1
     chk.clause("T3.default_stack(tiling, start_line, field_line)", len(docs))
-    for r in recs:
-        if r["diff"] and not report(chk, r):
-            unattributed += 1
     chk.extra["unattributed_conformance_differences"] = unattributed
     chk.assumptions += ["the end offset of a failed block is free within (start, next block start] (C03 fixes tiling only)",
                         "field start_line is compared only when the key and '=' are on one line"]
